@@ -22,6 +22,7 @@ GNext ==
             \/ ("vip" \in Mechs /\ Try(VipOTP(c, o), "VipOTP", [cred |-> c, owner |-> o]))
             \/ ("u2f" \in Mechs /\ Try(U2FFinish(c, o), "U2FFinish", [cred |-> c, owner |-> o]))
             \/ ("botp" \in Mechs /\ Try(BotpUse(c, o), "BotpUse", [cred |-> c, owner |-> o]))
+            \/ ("okta" \in Mechs /\ Try(OktaOTP(c, o), "OktaOTP", [cred |-> c, owner |-> o]))
        \/ \E c \in Creds, v \in VCookies :
             \/ ("vip" \in Mechs /\ Try(PushStart(c, v), "PushStart", [cred |-> c, vcookie |-> v]))
             \/ ("vip" \in Mechs /\ Try(PushPoll(c, v), "PushPoll", [cred |-> c, vcookie |-> v]))
